@@ -6,12 +6,14 @@ import (
 	"errors"
 	"fmt"
 	"io"
+	"math"
 	"math/rand"
 	"net"
 	"os"
 	"sort"
 	"strings"
 	"syscall"
+	"time"
 
 	"github.com/cloudwego/gopkg/bufiox"
 )
@@ -37,6 +39,9 @@ type RdCase struct {
 	// ErrKind (with fk = ERR): which error value the source fails with: "" = a private sentinel, or one of the well-known
 	// ones a real connection produces (EINTR, EAGAIN, deadline exceeded, closed, cancelled; bare or wrapped)
 	ErrKind string `json:"errkind,omitempty"`
+	// Rich: the source's dynamic type also is a net.Conn and offers Len / Buffered / Available ("readable right now": a
+	// few bytes), ReadByte, Close ...: what connections and buffered streams look like
+	Rich bool `json:"rich,omitempty"`
 }
 
 var errInjected = errors.New("verif: injected source error")
@@ -118,6 +123,40 @@ func (s *patSource) Read(p []byte) (int, error) {
 	return m, e
 }
 
+type richSource struct{ patSource }
+
+func (s *richSource) now() int {
+	n := s.S - s.pos
+	if n > 3 {
+		n = 3
+	}
+	return n
+}
+func (s *richSource) Len() int                           { return s.now() }
+func (s *richSource) Buffered() int                      { return s.now() }
+func (s *richSource) Available() int                     { return s.now() }
+func (s *richSource) Size() int64                        { return int64(s.now()) }
+func (s *richSource) Write(p []byte) (int, error)        { return len(p), nil }
+func (s *richSource) Close() error                       { return nil }
+func (s *richSource) LocalAddr() net.Addr                { return &net.UnixAddr{Name: "verif-local", Net: "unix"} }
+func (s *richSource) RemoteAddr() net.Addr               { return &net.UnixAddr{Name: "verif-remote", Net: "unix"} }
+func (s *richSource) SetDeadline(t time.Time) error      { return nil }
+func (s *richSource) SetReadDeadline(t time.Time) error  { return nil }
+func (s *richSource) SetWriteDeadline(t time.Time) error { return nil }
+func (s *richSource) ReadByte() (byte, error) { // one byte through the same script: recorded as a one-byte read
+	var b [1]byte
+	n, err := s.Read(b[:])
+	if n == 1 {
+		return b[0], nil
+	}
+	if err == nil {
+		err = io.ErrNoProgress
+	}
+	return 0, err
+}
+
+var _ net.Conn = &richSource{}
+
 func errClass(err error) string {
 	switch {
 	case err == nil:
@@ -140,7 +179,7 @@ type rdStater interface {
 
 func rdStateJSON(r rdStater) Raw {
 	st := r.VerifState()
-	return Raw(fmt.Sprintf(`{"ri":%d,"len":%d,"cap":%d,"np":%d,"ro":%v,"err":%v}`, st.Ri, st.Len, st.Cap, st.NPend, st.RO, st.HasErr))
+	return Raw(fmt.Sprintf(`{"ri":%d,"len":%d,"cap":%d,"np":%d,"ro":%v,"err":%v}`, rdN(st.Ri), rdN(st.Len), rdN(st.Cap), st.NPend, st.RO, st.HasErr))
 }
 
 func runRdCase(raw json.RawMessage, w *TraceWriter) {
@@ -159,7 +198,11 @@ func runRdCase(raw json.RawMessage, w *TraceWriter) {
 	} else {
 		src := &patSource{seed: cs.Seed, S: cs.S, fk: cs.Fk, wd: cs.Wd, chunks: cs.Chunks, w: w, errKind: cs.ErrKind}
 		curSrcErr = src.err()
-		r = bufiox.NewDefaultReader(src)
+		if cs.Rich {
+			r = bufiox.NewDefaultReader(&richSource{*src})
+		} else {
+			r = bufiox.NewDefaultReader(src)
+		}
 	}
 	_ = callerCopy
 	st := r.(rdStater)
@@ -179,15 +222,15 @@ func runRdCase(raw json.RawMessage, w *TraceWriter) {
 				} else {
 					r.Release(nil)
 				}
-				w.Ev("release", "rl", r.ReadLen(), "st", rdStateJSON(st))
+				w.Ev("release", "rl", rdN(r.ReadLen()), "st", rdStateJSON(st))
 			}()
 			continue
 		}
-		w.Ev("start", "op", op.Op, "n", op.N)
+		w.Ev("start", "op", op.Op, "n", rdN(op.N))
 		func() {
 			defer func() {
 				if p := recover(); p != nil {
-					w.Ev("end", "op", op.Op, "n", op.N, "ok", false, "m", 0, "e", "PANIC", "seg", litSeg(nil), "rl", -1, "st", Raw(`{"ri":-1,"len":-1,"cap":-1,"np":-1,"ro":false,"err":false}`), "panic", fmt.Sprint(p))
+					w.Ev("end", "op", op.Op, "n", rdN(op.N), "ok", false, "m", 0, "e", "PANIC", "seg", litSeg(nil), "rl", -1, "st", Raw(`{"ri":-1,"len":-1,"cap":-1,"np":-1,"ro":false,"err":false}`), "panic", fmt.Sprint(p))
 				}
 			}()
 			var buf []byte
@@ -214,9 +257,21 @@ func runRdCase(raw json.RawMessage, w *TraceWriter) {
 				}
 				buf = bs[:k]
 			}
-			w.Ev("end", "op", op.Op, "n", op.N, "ok", err == nil, "m", m, "e", errClass(err), "seg", SegOf(buf, cs.Seed, hint, cs.S), "rl", r.ReadLen(), "st", rdStateJSON(st))
+			w.Ev("end", "op", op.Op, "n", rdN(op.N), "ok", err == nil, "m", rdN(m), "e", errClass(err), "seg", SegOf(buf, cs.Seed, hint, cs.S), "rl", rdN(r.ReadLen()), "st", rdStateJSON(st))
 		}()
 	}
+}
+
+// rdN: counts beyond 2^30 are described to TLC as 2^30 (its integers are 32 bits wide and the contract adds the count to
+// the cursor); for streams of a few KiB the two are the same request: far more than the source will ever deliver
+func rdN(n int) int {
+	if n > 1<<30 {
+		return 1 << 30
+	}
+	if n < -(1 << 30) {
+		return -(1 << 30)
+	}
+	return n
 }
 
 func sigRd(raw json.RawMessage, line string) string {
@@ -505,7 +560,28 @@ func genRdCases(c *Ctx) []json.RawMessage {
 			}
 			cs.Ops = append(cs.Ops, op)
 		}
+		if cs.Fl == "io" && rng.Intn(4) == 0 {
+			cs.Rich = true
+		}
 		add(cs)
+	}
+	// counts near the top of the int range (a peer-controlled 64-bit length handed straight to the reader), once the
+	// source's error is latched (before that the reader would try to obtain that much memory): the request fails with
+	// the source's error, nothing is consumed, whatever the read index is
+	for _, fl := range []string{"io", "bytes"} {
+		for _, huge := range []int{math.MaxInt64, math.MaxInt64 - 1, math.MaxInt64 - 3, math.MaxInt64 - 5, 1 << 62, 1<<62 + 3, 1 << 32, math.MaxInt32, math.MaxInt32 + 1} {
+			for _, op := range []string{"next", "peek", "skip"} {
+				for _, consumed := range []int{0, 1, 4} {
+					cs := RdCase{Fl: fl, S: 5, Cap: 8, Fk: "EOF", Seed: seed}
+					seed++
+					if consumed > 0 {
+						cs.Ops = append(cs.Ops, RdOp{"next", consumed})
+					}
+					cs.Ops = append(cs.Ops, RdOp{"next", 6}, RdOp{op, huge}, RdOp{"peek", 1}, RdOp{"release", 0}, RdOp{op, huge}, RdOp{"next", 5 - consumed})
+					add(cs)
+				}
+			}
+		}
 	}
 	return out
 }
@@ -601,7 +677,7 @@ func tlcRdCases(c *Ctx) []json.RawMessage {
 }
 
 func checkC04(c *Ctx) {
-	c.rule = "MC: every behaviour of ReaderImpl (real constants) within the cfg bounds is accepted by ReaderAbs and is a behaviour of the integer core (RefinesCore). APALACHE: the core's invariants (no loss / duplication inside the buffer, cursor = base + ri, ReadLen, room while reading, the C04 contract on every completed call) are inductive for operands, streams, chunkings and capacities of any size. GEN: every transition of the bounded model is replayed on the real reader (Gen_BufReader). TRACE: one case = (reader flavour, stream, source fault/fragmentation policy, operation history); bounded-exhaustive histories over a boundary-valued alphabet x source behaviours (incl. the well-known error values of real connections: EINTR, EAGAIN, deadline, closed, cancelled, bare and wrapped, with and without data) plus seeded random histories; every case is executed on the real bufiox reader and every event is judged by TLC against ReaderAbs (violations) and ReaderImpl (drift)."
+	c.rule = "MC: every behaviour of ReaderImpl (real constants) within the cfg bounds is accepted by ReaderAbs and is a behaviour of the integer core (RefinesCore). APALACHE: the core's invariants (no loss / duplication inside the buffer, cursor = base + ri, ReadLen, room while reading, the C04 contract on every completed call) are inductive for operands, streams, chunkings and capacities of any size. GEN: every transition of the bounded model is replayed on the real reader (Gen_BufReader). TRACE: one case = (reader flavour, stream, source fault/fragmentation policy, operation history); bounded-exhaustive histories over a boundary-valued alphabet x source behaviours (incl. the well-known error values of real connections: EINTR, EAGAIN, deadline, closed, cancelled, bare and wrapped, with and without data) plus seeded random histories; every case is executed on the real bufiox reader and every event is judged by TLC against ReaderAbs (violations) and ReaderImpl (drift). Also: sources whose dynamic type is a net.Conn with Len / Buffered / Available (readable right now) / ReadByte; counts near MaxInt64 / 2^62 / 2^32 once the source error is latched (described to TLC clamped to 2^30)."
 	if c.Thorough() {
 		c.MC("MC_BufReader.tla", "MC_BufReader_thorough.cfg", 12)
 	} else {
